@@ -15,7 +15,12 @@ type propFn func(w *World, r *Report)
 
 var props = map[string]propFn{}
 
-func register(id string, f propFn) { props[id] = f }
+func register(id string, f propFn) {
+	props[id] = func(w *World, r *Report) {
+		f(w, r)
+		round6(w, r, id)
+	}
+}
 
 func main() {
 	prop := flag.String("prop", "", "property id (C01..C20)")
